@@ -14,6 +14,7 @@ import (
 	"verifharness/props/c11"
 	"verifharness/props/c12"
 	"verifharness/props/c13"
+	"verifharness/props/c14"
 	"verifharness/props/c18"
 )
 
@@ -25,6 +26,7 @@ var checks = map[string]func(*core.Ctx) int{
 	"C11": c11.Run,
 	"C12": c12.Run,
 	"C13": c13.Run,
+	"C14": c14.Run,
 	"C18": c18.Run,
 }
 
